@@ -19,20 +19,28 @@ MANIFEST = dict(
         "end to end with the modelled nonDominatedSort and front end for m != 4; k-smallest/k-largest selection returns min(k,n) sorted pairs dominating the rest, "
         "the first being an arg-min/arg-max (every outcome of the unstable sort); HypervolumeSubsetSelection2D model: the deque upper envelope equals the running maximum, "
         "the dynamic programme value equals the best chain area = hvSpec, back-tracking + fill-up return exactly k points of maximal hypervolume among all sub-lists of at "
-        "most k points (operator-level theorem for the intended lexicographic comparator; the comparator of the C++ is regenerated from the source on every run). "
+        "most k points; operator-level theorem for the operator as written: its comparator is regenerated from the source on every run and proved to be the "
+        "lexicographic order (ssp_comparator_is_lexicographic), so an edit of the tie-break breaks the check. "
         "Rational coordinates: hvQ/rankQ via a common denominator are well defined, agree with hvSpec/rankSpec on integers, rankQ satisfies the rank definition for the "
         "rational dominance, nonDominatedSort on the scaled points returns rankQ. All models are tied to the real code by exact line-by-line correspondence on generated "
         "integer point sets (2..6 objectives, ties, duplicates, dominated, collinear points, points on the boundary of the reference box, extreme magnitudes for the "
-        "sorts, the three arms of the sort switch, all k; subset selection is compared by the selected indices), each with an independent oracle in the harness."),
-  note=TRUST + "executable models tied by exact correspondence + oracle only (no theorem model = spec): HypervolumeCalculatorMDHOY (Model/HOY.lean; therefore the front end and "
-       "HypervolumeContributionMD in exactly 4 objectives are `_partial`), HypervolumeContribution3D (Model/Contrib3D.lean: x-y front, box lists, cutBoxesOnTheLeft/Right; compared "
-       "with hvSpec S - hvSpec (S without p) on every run). These routines return only their result, so the tie of their internal states to the C++ is through the results. "
+        "sorts, the three arms of the sort switch, all k; subset selection is compared by the selected indices), each with an independent oracle in the harness. "
+        "Intermediate states are tied where the real code exposes them: HypervolumeCalculatorMDHOY::stream is called directly on generated reachable (region, points, "
+        "split, cover) states (ops hoys, oracle = definition on the region), ndHelperA/ndHelperB (hence sweepA, sweepB, the splits) are called directly with preset front "
+        "numbers (ops dca/dcb, the real header compiled with access control lifted, oracle = the pre/postconditions of figures 2 and 7), and the sweeps of "
+        "HypervolumeCalculator3D, HOY, HypervolumeContribution3D and the sorts are observed on every prefix of the input in sweep order."),
+  note=TRUST + "only partially proved (`_partial` theorems in Props/C13.lean; tied by exact correspondence + oracle on every run): (1) HypervolumeCalculatorMDHOY - cover scan, "
+       "pile/trellis case, split with an in-region bound and the entry are proved; hvHoy = hvSpec holds for every run accepted by the Boolean replay `hoyOk` (depth budget not exhausted, "
+       "every bound inside its region); the C++ can choose a bound outside the region (stale median, reachable from operator(), corpus/C13/subroutines.txt) - observed harmless, the "
+       "signed-extent argument is not formalised; hence the front end and HypervolumeContributionMD in exactly 4 objectives are `_partial`; (2) HypervolumeContribution3D - index part, "
+       "boundary points, reduction of the operator to the inner sweep, slicing by height, conservation laws of both cuts and the geometry of new boxes are proved; the loop invariant of "
+       "the sweep (`SweepCorrect`) is open, the operator theorem is stated from it. "
        "HypervolumeContributionMD computes exp(sum(log(ref-p))): its results are compared after rounding to the nearest integer (tolerance 1e-6), everything else exactly. "
        "Theorems are about integer coordinates and lifted to rationals by the common-denominator argument (Lemmas/Scale.lean, Lemmas/RatLift.lean); the C++ runs on doubles, the "
-       "correspondence uses integer-valued doubles. The 1e-10 tolerances in upperEnvelope are modelled as exact comparisons (quotients of small integers). The subset-selection "
-       "operator theorem is for the intended comparator `f2 < rhs.f2`; the C++ currently has `f2 < rhs.f1` (open finding F-C13-4 / C13-SSP-LEXLESS: std::sort overflow with > 16 "
-       "points of equal first coordinate); on inputs with pairwise distinct first coordinates both comparators agree, and for <= 16 points the model reproduces libstdc++'s "
-       "insertion sort under the real comparator. In the WFG model the rank-1 filter of limitSet is written as 'has no dominator'; WFG is exercised on at most 12 points. "
+       "correspondence uses integer-valued doubles. The 1e-10 tolerances in upperEnvelope are modelled as exact comparisons (quotients of small integers). Finding C13-SSP-LEXLESS (F-C13-4: comparator `f2 < rhs.f1`, std::sort overflow with > 16 points "
+       "of equal first coordinate) is fixed in /repo d62b7243. `stream` is tied and (as far as proved) specified on REACHABLE states only: objectives behind `split` are uncut; "
+       "on other states the real stream and the model agree with each other but not with the definition (the median collected for an earlier split objective falls outside "
+       "the region; example in the generator comment) - harmless in real runs by the invariant, see Lemmas/HOY*.lean. In the WFG model the rank-1 filter of limitSet is written as 'has no dominator'; WFG is exercised on at most 12 points. "
        "The switch of nonDominatedSort is modelled as n < 3^(m+1) for log(n)/log(3) < m+1 (unobservable: both branches are proved equal to rankSpec).",
   technique="Lean 4 proofs by induction / loop invariants / well-founded recursion over point lists + exact differential correspondence with the C++ (ASan/UBSan)",
   design="§6 C13, §14")
@@ -44,7 +52,7 @@ FINISH = dict(level="proof",
                    "reference points weakly above all points; "
                    "a case is non-trivial if it has >= 3 points and (for sort/hv) at least one tie or dominated pair; distinct = distinct op text")
 
-LAKE_TARGETS = ["SharkVerif.Props.C13", "drv_c13"]   # Props imports Lemmas/{FastSort,Hypervolume,HV3D,Contrib,DCFront,Subset2D,RatLift}
+LAKE_TARGETS = ["SharkVerif.Props.C13", "drv_c13"]   # Props imports Lemmas/{FastSort,Hypervolume,HV3D,Contrib,DCFront,Subset2D,RatLift,Contrib3DE,HOY}
 REPO_SOURCES = ["src/Core/Random.cpp"]
 
 
@@ -176,12 +184,89 @@ def gen_case(r, kind, nmax, ctx):
         ctx.hist("ssp_has_dominated", nd < len({tuple(p) for p in P})); ctx.hist("ssp_has_duplicates", len({tuple(p) for p in P}) < n)
         ctx.hist("ssp_n", n if n <= 16 else ">16"); ctx.hist("ssp_k", min(k, 10)); ctx.hist("ssp_has_equal_x", len({p[0] for p in P}) < n)
         return f"ssp {k} {n} {flat([ref])} {flat(P)}"
+    if kind == "hoys":
+        # HypervolumeCalculatorMDHOY::stream called directly on a (possibly nested-looking) region; even point coordinates
+        # (the median of two of them is an integer, so model and C++ compute the same bounds)
+        m = r.choice([3, 3, 4, 4, 5]); w = r.choice([2, 3, 4, 5])
+        lo = [r.range(-1, w) for _ in range(m)]; up = [lo[d] + r.range(1, 2 * w + 1 - lo[d]) for d in range(m)]
+        cover = 2 * r.range(1, w + 1)
+        split = 0 if r.chance(1, 2) else r.range(0, m - 2)
+        P = []
+        style = r.choice(["any", "any", "piles", "two"])
+        for _ in range(r.choice([0, 1, 2]) if r.chance(1, 8) else r.range(3, 14)):
+            if P and r.chance(1, 8): P.append(list(r.choice(P))); continue
+            # coordinates: even, below `up` (the point reaches into the region), last one below `cover`
+            q = [2 * r.range(min(0, (up[d] - 1) // 2), (up[d] - 1) // 2) for d in range(m - 1)] + [2 * r.range(0, cover // 2 - 1)]
+            stick = [d for d in range(m - 1) if q[d] > lo[d]]
+            want = {"any": None, "piles": 1, "two": 2}[style] if not r.chance(1, 5) else None
+            if want is not None:
+                keep = set()
+                cand = list(range(m - 1))
+                while cand and len(keep) < want: keep.add(cand.pop(r.below(len(cand))))
+                for d in range(m - 1):
+                    if d in keep and q[d] <= lo[d] and 2 * ((lo[d] // 2) + 1) < up[d]: q[d] = 2 * r.range(lo[d] // 2 + 1, (up[d] - 1) // 2)
+                    if d not in keep and q[d] > lo[d]: q[d] = 2 * (lo[d] // 2) - 2 * r.below(2)
+            if any(q[d] >= up[d] for d in range(m - 1)) or q[m - 1] >= cover: continue
+            if sum(1 for d in range(split) if lo[d] < q[d]) >= 2: continue
+            P.append(q)
+        # reachable states only: an objective behind `split` has never been cut, regionLow is the minimum over all points there
+        # (on other states the real `stream` and the model agree with each other but not with the definition: the
+        # median collected for an earlier split objective can fall outside the region, e.g.
+        # hoys 5 5 2 0 4 0 3 -1 0 5 5 10 3 6 9 2 2 2 0 0 0 4 0 2 0 4 4 0 2 0 4 2 0 0 2 2 2 0 2 2 gives 1800 instead of 1760)
+        for d in range(split + 1, m - 1):
+            if P: lo[d] = min(lo[d], min(p[d] for p in P))
+        P.sort(key=lambda p: p[m - 1])
+        n = len(P)
+        sq = r.choice([0, 1, 2, 3, int(n ** 0.5)])
+        ctx.hist("hoys_m", m); ctx.hist("hoys_n", n); ctx.hist("hoys_split_positive", split > 0)
+        npile = sum(1 for p in P if sum(1 for d in range(m - 1) if p[d] > lo[d]) >= 2)
+        ctx.hist("hoys_has_non_pile_point", npile > 0); ctx.hist("hoys_has_covering_point", any(all(p[d] <= lo[d] for d in range(m - 1)) for p in P))
+        return f"hoys {m} {n} {sq} {split} {cover} {flat([lo, up])} {flat(P)}".rstrip()
+    if kind in ("dca", "dcb"):
+        # ndHelperA / ndHelperB of the divide-and-conquer sort called directly with preset front numbers
+        m = r.choice([2, 3, 3, 4, 5]); k = r.range(2, m)
+        w = r.choice([2, 3, 4])
+        P = gen_points(r, m, r.range(0, 14), w, base, r.choice(["mix", "front"]))
+        if kind == "dca" and k < m and not r.chance(1, 4):
+            P = [p[:k] + [base] * (m - k) for p in P]          # precondition of A: equal in the objectives >= k
+        P = sorted({tuple(p) for p in P}); P = [list(p) for p in P]
+        if kind == "dca":
+            L, H = P, []
+        elif k < m and not r.chance(1, 4) and P:
+            t = r.choice(P)[k]                                 # precondition of B: L not worse than H in objective k
+            L = [p for p in P if p[k] <= t]; H = [p for p in P if p[k] > t]
+            if r.chance(1, 2):                                 # equal in objective k is allowed across L and H
+                e = [p for p in L if p[k] == t]
+                if len(e) > 1: L = [p for p in L if p not in e[1:]]; H = sorted(H + e[1:])
+        else:
+            L = [p for p in P if r.chance(1, 2)]; H = [p for p in P if p not in L]
+        frt = [r.choice([1, 1, 1, 2, 3, 4]) for _ in L] + [r.choice([1, 1, 1, 1, 2, 3]) for _ in H]
+        ctx.hist(kind + "_k_m", f"k{k}/m{m}"); ctx.hist(kind + "_sizes", f"{min(len(L), 6)}/{min(len(H), 6)}")
+        return f"{kind} {k} {m} {len(L)} {len(H)} {flat(L + H)} {' '.join(map(str, frt))}".replace("  ", " ").rstrip()
     raise ValueError(kind)
+
+
+def prefix_family(r, line, ctx):
+    """observation of intermediate sweep states through the public interface: the op on every prefix of the input in
+    sweep order (third / last objective for the hypervolume sweeps, lexicographic for the sorts)"""
+    d = parse_line(line)
+    if d is None or len(d["P"]) < 2 or len(d["P"]) > 14: return []
+    P = sorted(d["P"]) if d["op"] == "sort" else sorted(d["P"], key=lambda p: p[-1])
+    out = []
+    for i in range(1, len(P) + 1):
+        c = dict(d); c["P"] = P[:i]
+        out.append(unparse(c))
+    ctx.hist("prefix_family", d["op"] + (":" + d["alg"] if d["op"] == "con" else "") + ":m" + str(d["m"]))
+    return out
 
 
 # ----------------------------------------------------- shrinking of one op line
 def parse_line(line):
     t = line.split()
+    if t and t[0][0] == "q" and t[0][1:].isdigit():
+        d = parse_line(" ".join(t[1:]))
+        if d is not None: d["q"] = t[0]
+        return d
     op = t[0]
     if op == "sort":
         m, n = int(t[1]), int(t[2]); nums = list(map(int, t[3:]))
@@ -199,6 +284,9 @@ def parse_line(line):
 
 
 def unparse(d):
+    if d.get("q"):
+        c = dict(d); q = c.pop("q")
+        return q + " " + unparse(c)
     P = d["P"]; n = len(P)
     if d["op"] == "sort": return f"sort {d['m']} {n} {flat(P)}".rstrip()
     if d["op"] == "hv": return f"hv {d['m']} {n} {flat([d['ref']])} {flat(P)}".rstrip()
@@ -227,6 +315,7 @@ def shrink_line(line, fails, budget=150):
 
 def classify(ops, res):
     op = ops[0].split()
+    if op[0][0] == "q" and op[0][1:].isdigit(): op = op[1:]
     tag = op[0] + (":" + op[1] + ":" + op[2] if op[0] == "con" else "") + (":m" + op[1] if op[0] in ("sort", "hv") else "")
     if res.crash and op[0] == "ssp" and "HypervolumeSubsetSelection2D::Point" in res.stderr and \
             re.search(r"std::__(unguarded_partition|introsort_loop|insertion_sort|unguarded_linear_insert)", res.stderr):
@@ -327,16 +416,28 @@ def run(ctx):
     lines = load_corpus()
     ctx.cov["corpus_cases"] = len(lines)
     r = ctx.rng.fork("c13")
-    plan = dict(dom=60, sort=260, hv=260, con=200, ssp=120) if ctx.quick else dict(dom=300, sort=1500, hv=1500, con=1200, ssp=700)
+    plan = dict(dom=60, sort=260, hv=260, con=200, ssp=120, hoys=160, dca=100, dcb=140) if ctx.quick else \
+        dict(dom=300, sort=1500, hv=1500, con=1200, ssp=700, hoys=1200, dca=600, dcb=900)
+    fam = {"sort": 0, "hv": 0, "con": 0}
     for kind, cnt in plan.items():
         for i in range(cnt):
             nmax = 40 if ctx.quick else (300 if (kind == "sort" and i % 6 == 0) else 60)
-            lines.append(gen_case(r, kind, nmax, ctx))
+            l = gen_case(r, kind, nmax, ctx)
+            if kind in ("dom", "sort", "hv", "con", "ssp") and r.chance(1, 5) and not (kind == "sort" and "2243003" in l or "1125899" in l):
+                # dyadic rational coordinates: the C++ gets every coordinate divided by a power of two
+                l = f"q{r.choice([2, 4, 8, 64])} " + l; ctx.hist("rational_coordinates", kind)
+            lines.append(l)
+            # prefix families (intermediate states of the sweeps): 3-/4-objective hypervolume, 3-D contributions, sorts
+            if kind in fam and fam[kind] < (12 if ctx.quick else 60):
+                t = l.split()
+                if (kind == "hv" and t[1] in ("3", "4")) or (kind == "con" and t[1] in ("3d", "disp") and t[4] == "3") or kind == "sort":
+                    pf = prefix_family(r, l, ctx)
+                    if pf: fam[kind] += 1; lines += pf
     if not ctx.quick:
         # third arm of the switch: n > 5000 goes back to the divide-and-conquer sort
         P = gen_points(r, 3, 5003, 9, 0, "mix")
         lines.append(f"sort 3 5003 {flat(P)}"); ctx.hist("sort_nds_uses", "dc(n>5000)")
-    for l in lines: ctx.hist("op_mix", l.split()[0])
+    for l in lines: ctx.hist("op_mix", [t for t in l.split() if not (t[0] == "q" and t[1:].isdigit())][0])
     ctx.cov["evaluations"] = len(lines)
     ctx.cov["distinct_nontrivial"] = len({l for l in lines if nontrivial(l)})
     ctx.sample({"op": lines[len(lines) // 2][:200]})
